@@ -93,7 +93,11 @@ func specEditCorpus(quick bool, extraNames bool, depth2 bool) []specEdit {
 	for _, n := range names {
 		out = append(out, specEdit{n, "unedited", seeds[n]})
 		for _, e := range singleEdits(n, seeds[n], extraNames) {
-			if quick && n != "minimal" && !quickEdit(e.Desc) {
+			if n == "ids" {
+				if !underSpecialName(e.Desc) || (quick && (strings.HasPrefix(e.Desc, "rename ") || strings.HasPrefix(e.Desc, "transplant ") || strings.HasPrefix(e.Desc, "wrap "))) {
+					continue // this seed is about what lies below the special names only
+				}
+			} else if quick && n != "minimal" && !quickEdit(e.Desc) {
 				continue // quick tier: on the larger seeds only the edit kinds listed in quickEdit
 			}
 			out = append(out, e)
